@@ -80,6 +80,29 @@ PROPS = {
         "rule": "one evaluation = one seeded tape on 3 (+joiner) nodes; distinct = distinct tapes plus verified (size,event,version) and (size,i,j) triples; non-trivial = at least 3 events",
         "components": _WORLD_A, "assumptions": _WORLD_A_ASSUME,
     }, **_wa()),
+    "C07": dict({
+        "level": "fault_enumeration",
+        "technique": "deterministic simulation, fault enumeration: every crash point (before/after each store write, each step boundary, each transfer chunk, the persist/Restore gap) of seeded workloads, each followed by restart, replay and comparison with never-crashed replicas and reference trees",
+        "design_ref": "DESIGN.md §7 C07",
+        "level_text": "For each seeded workload of c commands the check enumerates every crash placement: crash (and injected store error, which QED turns into a crash) before and after the store write of apply #1..#c on the leader or a follower, at every command boundary, optionally a second crash during recovery replay, and for 3-node workloads a crash or stream failure at every chunk of a state transfer plus the gap between persisting the installed snapshot and Restore, each with both continuations raft allows (same leader re-installs; new term appends directly). After each: restart, replay of all committed entries, then the recovered node must hold exactly the committed log (exactly-once oracle on every apply), equal the never-crashed replicas table by table, serve verifying proofs, keep every acknowledged snapshot, and return reference snapshots for later adds. The crash-point space of each workload is covered completely; workloads are sampled.",
+        "level_note": "Crash = process kill with surviving OS (completed RocksDB writes survive; in-flight write all-or-nothing). SIGKILL at arbitrary wall-clock instants inside librocksdb is not simulated.",
+        "rule": "one evaluation = one seeded workload with its complete crash-point sweep (8-60 scenarios, each a fresh simulated cluster); distinct = distinct (workload, scenario) pairs; non-trivial = scenario in which the fault fired or a restart happened",
+        "components": _WORLD_A, "assumptions": _WORLD_A_ASSUME,
+        "quick": {"seeds": 32, "chunk": 1, "wall_s": 480, "worker_timeout_s": 900},
+        "thorough": {"seeds": 800, "chunk": 4, "wall_s": 3000, "worker_timeout_s": 2400},
+    }),
+    "C08": dict({
+        "level": "fault_enumeration",
+        "technique": "deterministic simulation, fault enumeration: clean stop + reopen at every point of seeded workloads vs never-stopped replicas and reference trees; worker process abort (librocksdb assertions) observed by the parent",
+        "design_ref": "DESIGN.md §7 C08",
+        "level_text": "For each seeded workload the check enumerates every stop point 0..c: RaftNode.Close(true) on the leader or a follower, reopen on the same directories, then the rest of the workload. The reopened node must be indistinguishable: every later apply returns the reference snapshots, its tables equal the never-stopped replicas', its proofs verify. Shutdown must complete: Close must return nil, the directory must be reopenable (LOCK released), and the process must not abort — the checks run against the assertion-enabled system librocksdb, a worker killed by SIGABRT/SIGSEGV is reported as the violation with the tape of the seed it was running, confirmed by a fresh-process replay.",
+        "level_note": "Resource leaks are observable only through librocksdb's own destructor assertions and the LOCK file; Go-side leaks that RocksDB does not assert on are not detected.",
+        "rule": "one evaluation = one seeded workload with its complete stop-point sweep; distinct = distinct (workload, stop point) pairs; non-trivial = a node was really closed and reopened",
+        "components": _WORLD_A, "assumptions": _WORLD_A_ASSUME,
+        "abort_is_violation": True,
+        "quick": {"seeds": 96, "chunk": 3, "wall_s": 420, "worker_timeout_s": 900},
+        "thorough": {"seeds": 1600, "chunk": 8, "wall_s": 2400, "worker_timeout_s": 2400},
+    }),
     "C09": dict({
         "level": "exploration",
         "technique": "deterministic simulation with fault injection: forced log compaction, state transfer to lagging and brand-new nodes with stream failures, crashes mid-load and leader loss; convergence and in-memory-state oracles",
